@@ -119,7 +119,7 @@ var initPkgs = []string{
 	"github.com/IrineSistiana/mosproxy/internal/utils",
 	"github.com/IrineSistiana/mosproxy/app/router",
 	"github.com/IrineSistiana/connpool",
-	"io", "context", "bytes", "strings", "strconv", "net/netip", "bufio", "encoding/base64",
+	"io", "context", "bytes", "strings", "strconv", "net/netip", "bufio", "encoding/base64", "unicode/utf8", "unicode",
 }
 
 func (e *Engine) initAllowed(p *ssa.Package) bool {
